@@ -223,8 +223,13 @@ def ob_queries(ctx):
         ctx.require(st, z3.And(*conds) if ok2 else False, 'UnbondRequests reports every stored claim of the address with both amounts', 'query:requests', W.mv)
     ctx.need_witness('UnbondRequests Ok', n > 0)
     n = 0
-    raw_scenario(W, 'query', W.mk.variant(QM, 'AllHistory', crate=HUB, start_from=NONE, limit=NONE), user, querier=hub_querier_template(W))
-    for st, res in W.query(W.st, W.mk.variant(QM, 'AllHistory', crate=HUB, start_from=NONE, limit=NONE)):
+    # the cursor is exclusive: absent, or any number (below, equal to or above the stored batch id)
+    cursor = W.iv('history_cursor', 0, 2 ** 40)
+    start_from = SymEnum(W.iv('history_cursor_given', 0, 1), (NONE, some(cursor)))
+    shown = z3.Or(W.mv['history_cursor_given'] == 0, cursor < h['id'])
+    qmsg = W.mk.variant(QM, 'AllHistory', crate=HUB, start_from=start_from, limit=NONE)
+    raw_scenario(W, 'query', qmsg, user, querier=hub_querier_template(W))
+    for st, res in W.query(W.st, qmsg):
         ctx.ob.paths += 1
         if not is_ok(res):
             continue
@@ -233,8 +238,9 @@ def ob_queries(ctx):
         r = r.v if isinstance(r, JsonV) else r
         items = r.fields[0].items
         if len(items) != 1:
-            ctx.infeasible(st, 'AllHistory reports the stored batch', 'query:history_count', W.mv)
+            ctx.require(st, z3.And(z3.Not(shown), z3.BoolVal(len(items) == 0)), 'AllHistory reports every stored batch after the cursor (and nothing before it)', 'query:history_count', W.mv)
             continue
+        ctx.require(st, shown, 'AllHistory reports every stored batch after the cursor (and nothing before it)', 'query:history_count', W.mv)
         x = items[0]
         f = lambda i: (x.fields[i].fields[0] if isinstance(x.fields[i], Agg) else x.fields[i])   # noqa
         ctx.require(st, z3.And(f(0) == h['id'], f(1) == h['time'], f(2) == h['bsei'], f(3) == h['bsei_applied'], f(4) == h['bsei_wr'],
@@ -265,7 +271,8 @@ def ORACLE(v, scn, out):
             want = sorted((b_, int(w_['bsei_amount']), int(w_['stsei_amount'])) for (a_, b_), w_ in pre['wait'].items() if a_ == who)
             got = sorted((int(x[0]), int(x[1]), int(x[2])) for x in r['requests'])
             return [] if got == want else ['UnbondRequests reports %r, stored %r' % (got, want)]
-        want = [pre['hist'][i] for i in sorted(pre['hist'])][:10]
+        cur_ = scn['msg']['all_history'].get('start_from')
+        want = [pre['hist'][i] for i in sorted(pre['hist']) if cur_ is None or i > int(cur_)][:10]
         got = r['history']
         norm = lambda h_: {k_: (str(v_) if not isinstance(v_, bool) else v_) for k_, v_ in h_.items()}   # noqa
         same = len(got) == len(want) and all(all(norm(g_).get(k_) == v_ for k_, v_ in norm(w_).items()) for g_, w_ in zip(got, want))
